@@ -205,7 +205,76 @@ fn sentinel_script(framing: Framing) -> (Vec<In>, Vec<u8>) {
     }
 }
 
+/// A peer that never stops talking: thousands of valid back-to-back requests are readable at once,
+/// and the session is told to stop (shutdown command or dropped handle) right when they start. The
+/// session must stop while the traffic continues, not after it has drained the peer.
+fn server_busy_peer_case(seed: u64, n: u64, ev: &mut Evidence) {
+    let mut rng = Rng::sub(seed, 1070, n);
+    let framing = if n % 2 == 0 { Framing::Mbap } else { Framing::Rtu };
+    let level = (n / 2) % 36;
+    let decode = ((level % 4) as u8, ((level / 4) % 3) as u8, ((level / 12) % 3) as u8);
+    let frames = 3000usize;
+    let mut rest = vec![];
+    for k in 0..frames {
+        let pdu = [3u8, 0, (k % 50) as u8, 0, 1 + (k % 3) as u8];
+        rest.extend(match framing {
+            Framing::Mbap => mbap_frame(k as u16, 1, &pdu),
+            Framing::Rtu => rtu_frame(1, &pdu),
+        });
+    }
+    let first = match framing {
+        Framing::Mbap => mbap_frame(0xFFFF, 1, &[3, 0, 0, 0, 1]),
+        Framing::Rtu => rtu_frame(1, &[3, 0, 0, 0, 1]),
+    };
+    let drop_handle = rng.chance(1, 2);
+    let mut stores = BTreeMap::new();
+    stores.insert(1u8, Store::new(seed ^ n, 1, 0));
+    let case = ServerCase {
+        framing,
+        stores,
+        policy: None,
+        script: vec![In::Chunk(first), In::Delay(Duration::from_millis(1)), In::Chunk(rest), In::Eof],
+        decode,
+        commands: vec![(Duration::from_millis(1), if drop_handle { Cmd::DropHandle } else { Cmd::Shutdown })],
+    };
+    let obs = run_server_case(&case);
+    ev.eval();
+    ev.count("server_inputs", 1);
+    ev.count("busy_peer_sessions", 1);
+    // count the replies: every one is a read-holding-registers response with a byte count
+    let answered = {
+        let (mut i, mut k) = (0usize, 0usize);
+        let hdr = if framing == Framing::Mbap { 7 } else { 1 };
+        let trailer = if framing == Framing::Mbap { 0 } else { 2 };
+        while i + hdr + 2 <= obs.out.len() {
+            let bc = obs.out[i + hdr + 1] as usize;
+            i += hdr + 2 + bc + trailer;
+            k += 1;
+        }
+        k
+    };
+    ev.max("busy_peer_requests_answered_after_stop_command", answered as u64);
+    let rep = json!({"n": n, "role": "server", "tag": "busy_peer", "framing": framing.name(), "stop": if drop_handle { "handle_drop" } else { "shutdown" }});
+    if let Some(p) = &obs.panic {
+        ev.violation(format!("server_panic:{}", crate::util::panic_site(p)), format!("server session panicked with a busy peer: {p}"), rep);
+        return;
+    }
+    ev.class(format!("server|{}|decode{}|busy_peer|{}", framing.name(), level, if obs.end_is_shutdown { "shutdown" } else { "other" }));
+    // with a fair loop the stop is seen within a few hundred requests; draining half of the backlog
+    // first means it is only seen when the peer pauses
+    if !obs.end_is_shutdown || answered > frames / 2 {
+        ev.violation(
+            format!("server_ignores_{}_while_peer_keeps_sending:{}", if drop_handle { "handle_drop" } else { "shutdown" }, framing.name()),
+            format!("{} was issued when a backlog of {frames} requests became readable; the session answered {answered} of them and ended with {:?}", if drop_handle { "handle drop" } else { "shutdown" }, obs.end),
+            rep,
+        );
+    }
+}
+
 pub fn server_case(seed: u64, n: u64, ev: &mut Evidence) {
+    if n % 997 == 5 {
+        return server_busy_peer_case(seed, n, ev);
+    }
     let mut rng = Rng::sub(seed, 107, n);
     let framing = if n % 2 == 0 { Framing::Mbap } else { Framing::Rtu };
     let level = (n / 2) % 36;
@@ -943,6 +1012,7 @@ pub fn run(args: &Args) -> i32 {
         floors: vec![
             ("server_inputs".into(), args.tier.pick(700_000, 20_000_000)),
             ("client_inputs".into(), args.tier.pick(350_000, 10_000_000)),
+            ("busy_peer_sessions".into(), args.tier.pick(500, 15_000)),
             ("followup_sentinels_answered".into(), args.tier.pick(700_000, 20_000_000)),
         ],
         min_classes: 500,
